@@ -389,6 +389,9 @@ pub fn explore<S: Sys>(init: S, lim: &Limits) -> Explored<S> {
             continue;
         }
 
+        if lim.check_coreach && st.is_final() {
+            final_idx.push(idx);
+        }
         let acts = match guarded(|| st.actions()) {
             Ok(a) => a,
             Err(p) => {
